@@ -6,6 +6,8 @@
         here: the tuple carries the observation's bit pattern, the harness applies the documented transform)
   add <combo|interaction> <sel> <raw screen…>
       → `BayesianModel.add_observations(screen.subset(sel))` (refusals)
+  addpriv <combo|interaction> <sel> <raw screen…>
+      → the model's own `_add_observations(screen.subset(sel))`, i.e. without the public mask check
 -/
 import Batchie.Model.Train
 import Batchie.Model.ScreenIO
@@ -46,6 +48,17 @@ def handle : List String → Option String
       | .ok s => match s.subset 0 sel with
         | .error e => pure (showErr e)
         | .ok v => pure (showRes (addObservations k id (fun _ => false) s.arity (viewRows s v)))
+  | "addpriv" :: kind :: sel :: rest => do
+      let k ← parseKind? kind
+      let sel ← parseSel? sel
+      let r ← parseRaw? rest
+      match mk? r with
+      | .error e => pure ("parent-" ++ showErr e)
+      | .ok s => match s.subset 0 sel with
+        | .error e => pure (showErr e)
+        | .ok v => pure (showRes (match k with
+            | .sparseDrugCombo => addSparseDrugCombo id (fun _ => false) (viewRows s v)
+            | .sparseDrugComboInteraction => addInteraction id s.arity (viewRows s v)))
   | _ => none
 
 end Batchie.TrainIO
